@@ -146,6 +146,24 @@ T4 = {
  "C19-7": ("a hand-written reduction with a value-changing cast inside or around it", {"C19": 0}, {"C19": 1}, "near-misses reduce_cast_inner / reduce_cast_outer"),
  "C19-8": ("x + (-1)*y*z written as a flat three-factor product", {"C19": 0}, {"C19": 1}, "near-misses sub_flat3 / sub_flat3s / sub_flat3b"),
 }
+T5 = {
+ "C01-9": ("an Ellipsis standing for >= 1 axis followed by another index entry (x[..., 1])", {"C01": 1, "C02": 0}, {"C01": 1}, "none needed"),
+ "C01-10": ("pt.arange with an integer dtype and a negative step", {"C01": 0, "C03": 1}, {"C01": 1, "C03": 1}, "corpus outputs creation/arn, arn2, ars"),
+ "C05-9": ("materialize_with_mpms on a stack/concatenate with a repeated operand", {"C05": 1, "C07": 1}, {"C05": 1, "C07": 1},
+           "none needed (caught by generated program g2_0_3); corpus program repeated_operands added all the same"),
+ "C05-10": ("one array returned under two output names, then generate_loopy", {"C05": 0, "C01": 1}, {"C05": 1, "C01": 1},
+            "C05's preprocess transformation asserts that compute_order is exactly the set of output names"),
+ "C06-9": ("a distributed 0-d einsum operand that contains a scaling", {"C06": 0}, {"C06": 1}, "program zero_d_operand"),
+ "C06-10": ("0 - x with a literal zero on the path of a distributed einsum", {"C06": 0}, {"C06": 1}, "program literal_zero"),
+ "C07-9": ("ImplStored on a pure transposition (equal-length axes) of a stored array, used by another array", {"C07": 1}, {"C07": 1}, "none needed"),
+ "C07-10": ("a zero-size output carrying an axis tag", {"C07": 1}, {"C07": 1}, "none needed"),
+ "C16-9": ("two symbolic components in one of which a parameter appears but cancels ((n + m) - n vs m)", {"C16": 0}, {"C16": 1},
+           "the decision family built every expression from its coefficients: it now also compares (e1 + e2) - e2 with e1 and e2"),
+ "C16-10": ("two shapes with >= 2 symbolic axes whose mismatches cancel ((n, m) vs (m, n))", {"C16": 0}, {"C16": 1},
+            "decisions are_shapes_equal((e1, e2), (e2, e1)) and ((e1 + 1, e2), (e1, e2 + 1))"),
+ "C19-9": ("an addend that is the most negative value of a NumPy integer type, in wider arithmetic", {"C19": 0}, {"C19": 1}, "API lambdas npscalar/*min*"),
+ "C19-10": ("pt.where with a floating-point or complex condition array", {"C19": 0}, {"C19": 1}, "API lambdas where/fcond, icond, ccond"),
+}
 OBSOLETE = {"C06-5": "exploited the defect repaired by /repo d5be0ba (astype raised as BroadcastOp); on the current tree the distributive "
                      "law refuses graphs with astype on the path (UnknownIndexLambdaExpr), as on the pinned tree, so the change cannot manifest"}
 
@@ -164,7 +182,7 @@ def main():
         sd = os.path.join(root, sid)
         json.dump({"id": sid, "breaks_property": sid.split("-")[0], "campaign": 3, "files_changed": files_changed(sd),
                    "status": "obsolete", "why": why}, open(os.path.join(sd, "meta.json"), "w"), indent=1)
-    for camp, table in ((2, T), (3, T3), (4, T4)):
+    for camp, table in ((2, T), (3, T3), (4, T4), (5, T5)):
         for sid, (needs, before, after, how) in table.items():
             sd = os.path.join(root, sid)
             meta = {
@@ -199,20 +217,21 @@ def main():
     n2 = [r for r in rows if r[4] == 2]
     n3 = [r for r in rows if r[4] == 3]
     n4 = [r for r in rows if r[4] == 4]
+    n5 = [r for r in rows if r[4] == 5]
     with open(os.path.join(root, "README.md"), "w") as f:
         f.write("# Seeded changes\n\nEach directory holds one change to inducer/pytato written by an independent sub-agent that was "
                 "given only the text of one property and a scratch worktree (nothing from /verif): `patch.diff`, `demo.py` (passes on "
                 "the original, fails with the change), the agent's `notes.md`, and our `meta.json`.  Every change was confirmed by us "
                 "with `bin/seedconfirm` (demo passes on /repo's HEAD, fails with the patch; the baseline suite still passes with the "
                 "patch) and run against the checks with `bin/seedrun` (scratch worktree + `VERIF_REPO`; /repo is never modified).  "
-                "`-1`/`-2` are the first campaign, `-3`/`-4` the second, `-5`/`-6` the third, `-7`/`-8` the fourth (each run against the checks as "
+                "`-1`/`-2` are the first campaign, `-3`/`-4` the second, `-5`/`-6` the third, `-7`/`-8` the fourth, `-9`/`-10` a fifth round for six properties (each run against the checks as "
                 "strengthened after the previous one).\n\n"
                 "| seed | what it needs to manifest | caught before strengthening (quick tier) | caught now |\n|---|---|---|---|\n")
         for sid, needs, b, a, _ in rows:
             f.write(f"| {sid} | {needs} | {b} | {a} |\n")
         for sid, why in obsolete:
             f.write(f"| {sid} | (obsolete: {why}) | | |\n")
-        for name, rs in (("First", n1), ("Second", n2), ("Third", n3), ("Fourth", n4)):
+        for name, rs in (("First", n1), ("Second", n2), ("Third", n3), ("Fourth", n4), ("Fifth (six properties only)", n5)):
             own = sum(1 for r in rs if r[0].split("-")[0] in r[2].split(", "))
             anyc = sum(1 for r in rs if r[2] != "-")
             now = sum(1 for r in rs if r[0].split("-")[0] in r[3].split(", "))
